@@ -1852,3 +1852,66 @@ fn read_residuals<R: BitRead, I: SignedInteger>(
         _ => Err(Error::InvalidCodingMethod),
     }
 }
+
+/// Verification accessors and wrappers (only with `--cfg flac_codec_verif`)
+#[cfg(flac_codec_verif)]
+pub mod verif {
+    use super::*;
+
+    /// Projection of a reader's internal state
+    #[derive(Debug, Clone, Copy, PartialEq, Eq)]
+    pub struct ReaderState {
+        /// the decoder's next sample to decode, in channel-independent samples
+        pub current_sample: u64,
+        /// buffered units (bytes / samples) or, for the channel reader, consumed PCM frames
+        pub buffered: usize,
+        /// PCM frames in the decoder's frame buffer
+        pub frame_len: usize,
+    }
+
+    impl<R, E> FlacByteReader<R, E> {
+        /// Projection of the internal state
+        pub fn verif_state(&self) -> ReaderState {
+            ReaderState {
+                current_sample: self.decoder.current_sample,
+                buffered: self.buf.len(),
+                frame_len: self.decoder.buf.pcm_frames(),
+            }
+        }
+    }
+
+    impl<R> FlacSampleReader<R> {
+        /// Projection of the internal state
+        pub fn verif_state(&self) -> ReaderState {
+            ReaderState {
+                current_sample: self.decoder.current_sample,
+                buffered: self.buf.len(),
+                frame_len: self.decoder.buf.pcm_frames(),
+            }
+        }
+    }
+
+    impl<R> FlacChannelReader<R> {
+        /// Projection of the internal state
+        pub fn verif_state(&self) -> ReaderState {
+            ReaderState {
+                current_sample: self.decoder.current_sample,
+                buffered: self.consumed,
+                frame_len: self.decoder.buf.pcm_frames(),
+            }
+        }
+    }
+
+    /// Runs the private residual reader over `bytes`
+    pub fn read_residuals(
+        bytes: &[u8],
+        predictor_order: usize,
+        count: usize,
+    ) -> Result<Vec<i32>, Error> {
+        use bitstream_io::{BigEndian, BitReader};
+        let mut out = vec![0i32; count];
+        let mut r = BitReader::endian(bytes, BigEndian);
+        super::read_residuals(&mut r, predictor_order, &mut out)?;
+        Ok(out)
+    }
+}
